@@ -190,8 +190,8 @@ def linear_retarder(retardance, theta=0, shape=None):
     jones[..., 0, 0] = 1
     jones[..., 1, 1] = retphasor
 
-    derot = jones_rotation_matrix(-theta)
-    rot = jones_rotation_matrix(theta)
+    derot = jones_rotation_matrix(-theta, shape=shape)
+    rot = jones_rotation_matrix(theta, shape=shape)
     retarder = derot @ jones @ rot
     return retarder
 
@@ -225,8 +225,8 @@ def linear_diattenuator(alpha, theta=0, shape=None):
     jones[..., 0, 0] = 1
     jones[..., 1, 1] = alpha
 
-    derot = jones_rotation_matrix(-theta)
-    rot = jones_rotation_matrix(theta)
+    derot = jones_rotation_matrix(-theta, shape=shape)
+    rot = jones_rotation_matrix(theta, shape=shape)
     diattenuator = derot @ jones @ rot
     return diattenuator
 
